@@ -69,6 +69,14 @@ def generate(rnd, tier, index=0):
             if not ctxl and op["op"] in ("predict", "expect"):
                 choices = [c for c in choices if not c.startswith("series")]   # see DESIGN C18: outside the quantifier
             op["container"] = rnd.choice(choices)
+            if op["container"] in ("ndarray_i8", "ndarray_u8", "ndarray_i16") and ctxl:
+                # narrow integer arrays: values that are representable in the dtype but whose products / sums are not
+                # (|x| <= 30 in int8: x*x overflows; |x| <= 180 in int16: x*x + x*x overflows)
+                f = 60 if op["container"] == "ndarray_i16" else 10
+                for r in (op["rows"] if "rows" in op else []):
+                    r[2] = [x * f for x in r[2]]
+                if op.get("Q"):
+                    op["Q"] = [[x * f for x in q] for q in op["Q"]]
             if op["op"] in ("fit", "partial_fit") and rnd.random() < 0.25 and ctxl:
                 # force the Series disambiguation shapes: one row, or one feature
                 op["container"] = "series_auto"
